@@ -5794,11 +5794,9 @@ func (c *linkerContext) generateChunkJS(chunkIndex int, chunkWaitGroup *sync.Wai
 				if fileRepr := c.graph.Files[chunk.sourceIndex].InputFile.Repr.(*graph.JSRepr); fileRepr.Meta.Wrap == graph.WrapCJS {
 					aliases = []string{"default"}
 				} else {
-					resolvedExports := fileRepr.Meta.ResolvedExports
-					aliases = make([]string, 0, len(resolvedExports))
-					for alias := range resolvedExports {
-						aliases = append(aliases, alias)
-					}
+					// Only list what the export statement lists: names that are
+					// ambiguous or that only exist as TypeScript types are left out
+					aliases = append(aliases, fileRepr.Meta.SortedAndFilteredExportAliases...)
 				}
 			} else {
 				aliases = make([]string, 0, len(chunkRepr.exportsToOtherChunks))
